@@ -1,7 +1,7 @@
 """C16 — the trial count follows the documented rules and every returned sequence has that length.
 
 Observed: block.trials_per_sample() and the length of every list in the sequences returned by IterateSATGen,
-RandomGen, CMSGen (and UniGen / SMGen on a sample of designs).
+RandomGen, CMSGen, UniGen on a fifth of the designs, and SMGen on the designs it supports.
 Oracle: R.T(spec) from the documented arithmetic (vlib/ref.py analyze) wherever R decides T.
 """
 from vlib import designs as D, observe as O
@@ -11,8 +11,8 @@ RULE = ("cases = generated design specs K1-K11 with emphasis on MinimumTrials, E
         "Nest; non-trivial = constructor accepted and R decides the trial count; distinct = distinct spec hashes; "
         "per case the reported count and the length of every list of every returned sequence are compared with R")
 ASSUMPTIONS = ["reference model R (vlib/ref.py) trial-count arithmetic is the documented one"]
-MINIMUMS = {"quick": {"T_compared": 400, "sequences_length_checked": 1500, "T_gt_crossing_size": 60},
-            "thorough": {"T_compared": 1400, "sequences_length_checked": 5250, "T_gt_crossing_size": 210}}
+MINIMUMS = {"quick": {"T_compared": 400, "sequences_length_checked": 1500, "T_gt_crossing_size": 60, "smgen_sequences_length_checked": 15},
+            "thorough": {"T_compared": 1400, "sequences_length_checked": 5250, "T_gt_crossing_size": 210, "smgen_sequences_length_checked": 50}}
 CASE_TIMEOUT = 90
 CLASSES = ["K1", "K2", "K3", "K4", "K5", "K6", "K6", "K7", "K7", "K8", "K8", "K9", "K9", "K10", "K11", "K11", "K12", "K12"]
 
@@ -43,9 +43,15 @@ def run_case(case):
     h = int(case["spec"] and __import__("vlib.spec", fromlist=["x"]).spec_hash(case["spec"]), 16)
     if h % 5 == 0 and p.block.variables_per_sample() <= 120:
         plan.append(("UniGen", 2))
+    t = p.spec["block"]
+    if (t["op"] == "cross" and len(t["crossings"]) == 1 and all(c["type"] == "MinimumTrials" for c in t["cons"])
+            and not any(f["kind"] == "derived" and f["win"][0] == "window" for f in p.spec["factors"].values())):
+        plan.append(("SMGen", 1))     # the designs SMGen documents as supported
     checked = 0
     for strat, n in plan:
         r, err, st = D.run_strategy(p.spec, strat, n, 8 if strat == "RandomGen" else 20)
+        if strat == "SMGen" and st == "ok" and not err and r:
+            counters["smgen_sequences_length_checked"] = counters.get("smgen_sequences_length_checked", 0) + len(r)
         if st != "ok" or err or r is None:
             counters["%s_%s" % (strat.lower(), st if st != "ok" else "raised")] = 1
             continue
